@@ -33,7 +33,8 @@ VERIF = runner.VERIF
 EXEC = os.path.join(VERIF, 'exec')
 STD = ['Clone', 'Copy', 'Debug', 'Default', 'Eq', 'Hash', 'Ord', 'PartialEq', 'PartialOrd']
 SUPER = {'Ord': ['Eq', 'PartialOrd', 'PartialEq'], 'PartialOrd': ['PartialEq'], 'Eq': ['PartialEq'], 'Copy': ['Clone']}
-MARKERS = {'Leaf': set(STD) | {'Super'}, 'JustClone': {'Clone', 'Copy'}, 'JustSuper': {'Super'}, 'Nothing': set()}
+MARKERS = {'Leaf': set(STD) | {'Super', 'my::Clone', 'my::Debug'}, 'JustClone': {'Clone', 'Copy'},
+           'JustSuper': {'Super', 'my::Clone', 'my::Debug'}, 'Nothing': set()}
 PATH = {'Clone': '::core::clone::Clone', 'Copy': '::core::marker::Copy', 'Debug': '::core::fmt::Debug', 'Default': '::core::default::Default',
         'Eq': '::core::cmp::Eq', 'Hash': '::core::hash::Hash', 'Ord': '::core::cmp::Ord', 'PartialEq': '::core::cmp::PartialEq',
         'PartialOrd': '::core::cmp::PartialOrd'}
@@ -73,6 +74,7 @@ def gen(rng):
         groups[0] += groups.pop()
     attrs = []
     lists = []
+    trails = []
     for g in groups:
         r = rng.random()
         if r < 0.12:
@@ -93,7 +95,22 @@ def gen(rng):
         else:
             gens = [entry(rng, tps) for _ in range(rng.randint(1, 3))]
         lists.append(gens)
-        attrs.append(Attr('dw', traits_body([MPathM(t) for t in g], gens, False, rng.random() < 0.1)))
+        trails.append(rng.random() < 0.1)
+    # user traits that are *named like* derived ones (`my::Clone`, `my::Debug`) as custom bounds and where-predicates: a
+    # bound on another trait of the same name must not stand in for the derived trait's bound (round 9). Decided by a
+    # generator state of its own, so that the items above stay what they were.
+    import zlib
+    r2 = random.Random(zlib.crc32(repr((kind, tps, groups, [[e.rust() for e in (l or [])] for l in lists])).encode()))
+    if r2.random() < 0.3:
+        cand = [i for i, l in enumerate(lists) if l is not None]
+        if cand:
+            i = r2.choice(cand)
+            lists[i] = list(lists[i])
+            lists[i].insert(r2.randrange(len(lists[i]) + 1), Gen('custom', '%s: my::%s' % (r2.choice(tps), r2.choice(['Clone', 'Debug']))))
+    if r2.random() < 0.12:
+        preds.append('%s: my::%s' % (r2.choice(tps), r2.choice(['Clone', 'Debug'])))
+    for g, gens, tr in zip(groups, lists, trails):
+        attrs.append(Attr('dw', traits_body([MPathM(t) for t in g], gens, False, tr)))
     ph = '::core::marker::PhantomData<(%s)>' % ', '.join(tps + ['']) if len(tps) > 1 else '::core::marker::PhantomData<T>'
     if kind == 'enum':
         vs = [Variant(I('X'), 'tuple', [Field(0, ph, []), Field(1, 'u8', [])]), Variant(I('Y'), 'unit', [])]
@@ -178,6 +195,8 @@ pub struct Nothing(pub u8);
 pub trait Super {}
 impl Super for Leaf {}
 impl Super for JustSuper {}
+pub mod my { pub trait Clone {} pub trait Debug {} }
+impl my::Clone for Leaf {} impl my::Clone for JustSuper {} impl my::Debug for Leaf {} impl my::Debug for JustSuper {}
 #[macro_export]
 macro_rules! impls {
     ($ty:ty : $($tr:tt)+) => {{
